@@ -52,7 +52,7 @@ TYPED = {'A': ["n=1 s=a typed", "n=2 s=b typed", "n=3 s=c typed"],
 
 def gen_lines(seed, vol, with_seq, falsy=False, distinct=False,
               badutf8=False, open_tail=False, orphan_head=False,
-              typed=None):
+              typed=None, marks=False):
     """ deterministic file content with exactly `vol` results.  Line kinds:
     'N W match' (simple A), 'N W beta match' (simple A and B), filler, if
     with_seq sections 'N begin' / 'N body W' / 'N end', and if falsy lines
@@ -67,6 +67,14 @@ def gen_lines(seed, vol, with_seq, falsy=False, distinct=False,
     rng = random.Random(seed)
     out = []
     n = 0
+    if marks:
+        # every result of this file comes from a definition that stores no
+        # values (store_result_contents=False): only tags reach the store
+        for i in range(vol):
+            out.append(f"mark {i}")
+            if rng.random() < 0.3:
+                out.append("filler line without any result")
+        n = vol
     while n < vol:
         k = rng.random()
         num = rng.randrange(50)
@@ -142,7 +150,7 @@ def write_files(d, recipe):
                                   f.get('badutf8', False),
                                   f.get('open_tail', False),
                                   f.get('orphan_head', False),
-                                  f.get('typed'))
+                                  f.get('typed'), f.get('marks', False))
                 fh.write("\n".join(lines) + "\n")
         paths.append(p)
     return paths
@@ -153,6 +161,7 @@ def make_defs():
     return [SearchDef(r'^n=(\d+) s=(\S*) typed', tag='F',
                       field_info=ResultFieldInfo({'n': int, 's': str})),
             SearchDef(r'^k=(\w*) v=(\d+)', tag='K'),
+            SearchDef(r'^mark ', tag='M', store_result_contents=False),
             SearchDef(r'^g=(\S+) flt', tag='G',
                       field_info=ResultFieldInfo({'x': float})),
             SearchDef(r'^(\d+) (\S+) .*match$', tag='A'),
@@ -448,6 +457,11 @@ def recipes(chk):
                 if f['vol'] != 'E' and f['vol'] >= 1 and 'typed' not in f:
                     f['typed'] = 'AB'[k % 2]
                     k += 1
+    # files whose only results store no values (existence-only searches)
+    mk = files([9, 11, 'E', 10, 1000], 0.5)
+    mk[0]['marks'] = True
+    mk[3]['marks'] = True
+    out.append({'m': 3, 'files': mk})
     # two catalog paths for one file: a symlink inside the directory, the
     # same path with a doubled separator
     al = files([10, 11, 'E', 9], 0.5)
@@ -578,6 +592,8 @@ def observable(chk):
             chk.dist('obs_runs_with_sequence_sections')
         if any('alias_of' in f for f in r['files']):
             chk.dist('obs_runs_with_aliased_paths')
+        if any(f.get('marks') for f in r['files']):
+            chk.dist('obs_runs_with_value_less_results_only_files')
         if r['m'] in (0, 1) and \
                 sum(1 for e in res['paths'] if e.get('float_values')) and \
                 any(f.get('typed') == 'A' for f in r['files']):
